@@ -63,3 +63,31 @@ Print Assumptions C01_fragment_roundtrip.
 Theorem C01_canonical_is_checkable : forall n e, canb n e = true -> can n e.
 Proof. exact canb_ok. Qed.
 Print Assumptions C01_canonical_is_checkable.
+
+(* ---- the type grammar (ParseType), whole: Parse/TypeModel.v (parser), Parse/TypeRender.v (printer), Parse/TypeRoundTrip.v ---- *)
+From Verif Require Import Parse.TypeModel Parse.TypeProofs Parse.TypeRespell Parse.TypeRender Parse.TypeRoundTrip.
+
+(* on every type tree the GENERATED SQL() programs compute the recursive function render_ty *)
+Theorem C01_generated_printer_on_types : forall is_print t, sql is_print schema sql_prog prec_table (ty_tree t) = render_ty is_print t.
+Proof. exact sql_ty. Qed.
+Print Assumptions C01_generated_printer_on_types.
+
+(* every well-formed type tree, spelled from its shape, is a sentence of the type grammar, for a tree that differs in positions only *)
+Theorem C01_type_spelling_is_a_sentence : forall t, wf_tyb t = true -> forall K, okK K ->
+  exists t0, Tr t0 (zspell t ++ K) K /\ erase_ty (fun b => b) t0 = erase_ty (fun b => b) t.
+Proof. exact zspell_Tr. Qed.
+Print Assumptions C01_type_spelling_is_a_sentence.
+
+(* the composition: if the tokens lexed from the printed text agree with the spelling of the tree -- every ">>" read as two closing
+   brackets; the hypothesis is decidable and evaluated with the real lexer on every accepted type input of every run -- the entry point
+   accepts them, returns the tree up to positions, and printing the result gives the same text *)
+Theorem C01_type_roundtrip : forall is_print t ts, wf_tyb t = true -> same_type_tokens (zspell t ++ [eof_tok])%list (unfuse ts) ->
+  exists t' e', parse_type ts = Ok (t', [e']) /\ erase_ty (fun b => b) t' = erase_ty (fun b => b) t /\
+                render_ty is_print t' = render_ty is_print t /\
+                sql is_print schema sql_prog prec_table (ty_tree t') = sql is_print schema sql_prog prec_table (ty_tree t).
+Proof. exact type_roundtrip. Qed.
+Print Assumptions C01_type_roundtrip.
+
+Theorem C01_type_hypothesis_is_checkable : forall a b, same_type_tokensb a b = true -> same_type_tokens a b.
+Proof. exact same_type_tokensb_ok. Qed.
+Print Assumptions C01_type_hypothesis_is_checkable.
